@@ -346,6 +346,11 @@ class Alg:
                     return sp.Integer(0)
                 if p == "T::one":
                     return sp.Integer(1)
+                if p.split("::")[-1] == "div_floor" and len(e["args"]) == 2:
+                    # synchro::div_floor: exact integer floor division (body verified by R-C07-exact)
+                    return idiv_f(self.conv(e["args"][0]), self.conv(e["args"][1]))
+                if p.split("::")[-1] == "div_ceil" and len(e["args"]) == 2:
+                    return sp.Function("cdiv")(self.conv(e["args"][0]), self.conv(e["args"][1]))
                 if self.opaque_ok:
                     return self.opaque_fn("f_" + p.replace("::", "__").replace("<", "_").replace(">", "_"),
                                           [self.conv(a) for a in e["args"]])
